@@ -1,6 +1,8 @@
 import UrcuVerif.Handshake.Tso
 import UrcuVerif.Handshake.QsbrTso
 import UrcuVerif.Src.ReadLocal
+import UrcuVerif.CallRcu.Wake
+import UrcuVerif.Defer.ConcWake
 /-!
 # Futex wait / wake handshakes: thread-local automata (generic layer + grace-period models)
 
@@ -32,6 +34,7 @@ EITHER the waiter's own label `wSpurious` (local label `woken`, `toL2 = wSpuriou
 the move having been made by the environment's wake label: `projW_env_wake` states that this environment step acts on
 the projection exactly like the local label `woken` (when the waiter is asleep) or not at all (otherwise).
 -/
+set_option linter.unusedSimpArgs false
 namespace UrcuVerif.Src.Futex
 open UrcuVerif
 
@@ -442,5 +445,396 @@ theorem simK (s : GKState) (l : GKLabel) (s' : GKState) (h : gkstep s l = some s
     simp_all [runA, gk2l, kstep, kMap]
 
 end Qs
+
+/-! ## `CallRcu/Wake.lean` (call_rcu helper futex): helper = waiter (`call_rcu_wait`), `_call_rcu` callers = wakers -/
+
+namespace Cr
+open CallRcuWake
+
+/-- helper labels, decorated: `hChk e` = `cds_wfcq_empty()` returned `e`, `hWaitLd v` = loaded the futex, saw `v` -/
+inductive WLabel
+  | hDec | hTake | hChk (e : Bool) | hWaitLd (v : Int) | hWaitFx (o : FOut) | woken
+  deriving DecidableEq, Repr
+
+def WLabel.toL2 : WLabel → Label
+  | .hDec => .hDec | .hTake => .hTake | .hChk _ => .hChk | .hWaitLd _ => .hWaitLd | .hWaitFx o => .hWaitFx o
+  | .woken => .hSpurious
+
+/-- where the helper goes when the wait is over / when the queue is empty (`decAfter` = the broken variant) -/
+def afterWait (c : Cfg) : HPc := if c.decAfter then .take else .dec
+def afterEmpty (c : Cfg) : HPc := if c.decAfter then .dec else .waitLd
+
+def lstep (c : Cfg) (pc : HPc) : WLabel → Option HPc
+  | .hDec => if pc = .dec then some (if c.decAfter then .waitLd else .take) else none
+  | .hTake => if pc = .take then some .chk else none
+  | .hChk e => if pc = .chk then some (if e then afterEmpty c else .take) else none
+  | .hWaitLd v => if pc = .waitLd then some (if v = -1 then .waitFx else afterWait c) else none
+  | .hWaitFx o =>
+    if pc = .waitFx then
+      match o with
+      | .sleep => some .asleep
+      | .eagain => some (afterWait c)
+      | .eintr => some .waitLd
+      | .spurious => some .waitLd
+    else none
+  | .woken => if pc = .asleep then some .waitLd else none
+
+def ObsW (s : State) : WLabel → Prop
+  | .hChk e => e = decide (s.q = 0)
+  | .hWaitLd v => v = s.futex
+  | _ => True
+
+def GuardW (s : State) : WLabel → Prop
+  | .hChk e => e = decide (s.q = 0)
+  | .hWaitLd v => v = s.futex
+  | .hWaitFx .sleep => s.futex = -1
+  | .hWaitFx .eagain => s.futex ≠ -1
+  | _ => True
+
+def ownedW : Label → Bool
+  | .hDec | .hTake | .hChk | .hWaitLd | .hWaitFx _ | .hSpurious => true
+  | _ => false
+
+def isWake : Label → Bool
+  | .kWake _ => true
+  | _ => false
+
+def wakeEffect (pc : HPc) : HPc := if pc = .asleep then .waitLd else pc
+
+theorem projW_step (c : Cfg) (s s' : State) (l : WLabel)
+    (st : step c s l.toL2 = some s') (ho : ObsW s l) : lstep c s.hpc l = some s'.hpc := by
+  cases l with
+  | hWaitFx o =>
+    cases o <;> simp only [WLabel.toL2, step] at st <;> (repeat' split at st) <;>
+      first
+      | (simp at st; done)
+      | (simp only [Option.some.injEq] at st; subst st; simp_all [ObsW, lstep, afterWait, afterEmpty])
+  | _ =>
+    simp only [WLabel.toL2, step] at st <;> (repeat' split at st) <;>
+      first
+      | (simp at st; done)
+      | (simp only [Option.some.injEq] at st; subst st; simp_all [ObsW, lstep, afterWait, afterEmpty])
+
+theorem projW_enabled (c : Cfg) (s : State) (l : WLabel) (pc' : HPc)
+    (hl : lstep c s.hpc l = some pc') (hg : GuardW s l) :
+    ∃ s', step c s l.toL2 = some s' ∧ s'.hpc = pc' ∧ ObsW s l := by
+  cases l with
+  | hWaitFx o =>
+    cases o <;> simp only [lstep] at hl <;> (repeat' split at hl) <;>
+      first
+      | (simp at hl; done)
+      | (simp only [Option.some.injEq] at hl; subst hl
+         simp_all [ObsW, GuardW, WLabel.toL2, step, afterWait, afterEmpty])
+  | _ =>
+    simp only [lstep] at hl <;> (repeat' split at hl) <;>
+      first
+      | (simp at hl; done)
+      | (simp only [Option.some.injEq] at hl; subst hl
+         simp_all [ObsW, GuardW, WLabel.toL2, step, afterWait, afterEmpty])
+
+/-- wakers' `kEnq kLd kSt kSkip` and `flush j` leave the helper's pc unchanged -/
+theorem projW_frame (c : Cfg) (s s' : State) (l : Label)
+    (st : step c s l = some s') (ho : ownedW l = false) (hw : isWake l = false) : s'.hpc = s.hpc := by
+  cases l <;> simp only [step] at st <;> (repeat' split at st) <;>
+    first
+    | (simp at st; done)
+    | (simp only [Option.some.injEq] at st; subst st; simp_all [ownedW, isWake])
+
+theorem projW_env_wake (c : Cfg) (s s' : State) (j : Nat) (st : step c s (.kWake j) = some s') :
+    s'.hpc = wakeEffect s.hpc ∧ (s.hpc = .asleep → lstep c s.hpc .woken = some s'.hpc) := by
+  simp only [step] at st
+  split at st
+  · simp only [Option.some.injEq] at st; subst st; simp +contextual [wakeEffect, lstep]
+  · simp at st
+
+def pcMap (c : Cfg) : GWPc → HPc
+  | .chk => .waitLd | .call => .waitFx | .asleep => .asleep | .done => afterWait c
+
+/-- one L2 label per generic label -/
+def gw2l : GWLabel → List WLabel
+  | .ldArmed => [.hWaitLd (-1)] | .ldOther v => [.hWaitLd v] | .sleep => [.hWaitFx .sleep] | .woken => [.woken]
+  | .eagain => [.hWaitFx .eagain] | .intr => [.hWaitFx .eintr]
+
+theorem sim (c : Cfg) (g : GWPc) (l : GWLabel) (g' : GWPc) (h : gwstep (-1) g l = some g') :
+    runA (lstep c) (pcMap c g) (gw2l l) = some (pcMap c g') := by
+  cases g <;> cases l <;> simp only [gwstep] at h <;> (try split at h) <;> simp at h <;> subst h <;>
+    simp_all [runA, gw2l, lstep, pcMap]
+
+/-! ### waker `i` (`_call_rcu` → `wake_call_rcu_thread` → `call_rcu_wake_up`) -/
+
+structure KState where
+  kpc : KPc
+  r   : Int
+  deriving DecidableEq, Repr
+
+def projK (s : State) (i : Nat) : KState := { kpc := s.kpc i, r := s.r i }
+
+inductive KLabel
+  | kEnq | kLd (v : Int) | kSt | kSkip | kWake
+  deriving DecidableEq, Repr
+
+def KLabel.toL2 (i : Nat) : KLabel → Label
+  | .kEnq => .kEnq i | .kLd _ => .kLd i | .kSt => .kSt i | .kSkip => .kSkip i | .kWake => .kWake i
+
+def ownerK : Label → Option Nat
+  | .kEnq i | .kLd i | .kSt i | .kSkip i | .kWake i => some i
+  | _ => none
+
+def kstep (ks : KState) : KLabel → Option KState
+  | .kEnq => if ks.kpc = .k0 then some { ks with kpc := .kmb } else none
+  | .kLd v => if ks.kpc = .kmb then some { kpc := .k2, r := v } else none
+  | .kSt => if ks.kpc = .k2 ∧ ks.r = -1 then some { ks with kpc := .k3 } else none
+  | .kSkip => if ks.kpc = .k2 ∧ ks.r ≠ -1 then some { ks with kpc := .k0 } else none
+  | .kWake => if ks.kpc = .k3 then some { ks with kpc := .k0 } else none
+
+/-- the load is forwarded from the waker's own store buffer when its previous `futex := 0` is still pending -/
+def ObsK (s : State) (i : Nat) : KLabel → Prop
+  | .kLd v => v = if s.bfut i then 0 else s.futex
+  | _ => True
+
+def GuardK (s : State) (i : Nat) : KLabel → Prop
+  | .kEnq => s.bfut i = false
+  | .kLd v => v = if s.bfut i then 0 else s.futex
+  | .kWake => s.bfut i = false
+  | _ => True
+
+theorem projK_step (c : Cfg) (s s' : State) (i : Nat) (l : KLabel)
+    (st : step c s (l.toL2 i) = some s') (ho : ObsK s i l) : kstep (projK s i) l = some (projK s' i) := by
+  cases l <;> simp only [KLabel.toL2, step] at st <;> (repeat' split at st) <;>
+    first
+    | (simp at st; done)
+    | (simp only [Option.some.injEq] at st; subst st; simp_all [ObsK, kstep, projK, upd])
+
+theorem projK_enabled (c : Cfg) (s : State) (i : Nat) (l : KLabel) (ks' : KState)
+    (hl : kstep (projK s i) l = some ks') (hi : i < c.n) (hg : GuardK s i l) :
+    ∃ s', step c s (l.toL2 i) = some s' ∧ projK s' i = ks' ∧ ObsK s i l := by
+  cases l <;> simp only [kstep] at hl <;> (repeat' split at hl) <;>
+    first
+    | (simp at hl; done)
+    | (simp only [Option.some.injEq] at hl; subst hl; simp_all [ObsK, GuardK, KLabel.toL2, step, projK, upd])
+
+/-- environment: the helper's labels, `flush j` for every `j` (also `j = i`), other wakers' -/
+theorem projK_frame (c : Cfg) (s s' : State) (i : Nat) (l : Label)
+    (st : step c s l = some s') (ho : ownerK l ≠ some i) : projK s' i = projK s i := by
+  cases l <;> simp only [step] at st <;> (repeat' split at st) <;>
+    first
+    | (simp at st; done)
+    | (simp only [Option.some.injEq] at st; subst st; simp_all [ownerK, projK, upd] <;> grind)
+
+/-- generic waker (`call_rcu_wake_up`: L2 pcs `kmb → k2 → k3 → k0`; the `cmm_smp_mb()` at its head belongs to `kEnq`) -/
+def kMap (s : GKState) : KState :=
+  { kpc := match s.kpc with | .k1 => .kmb | .k2 => .k2 | .k3 => .k3 | .k4 => .k0, r := s.r }
+
+def gk2l : GKLabel → List KLabel
+  | .k1 v => [.kLd v] | .k2Wake => [.kSt] | .k2Skip => [.kSkip] | .k3 => [.kWake]
+
+theorem simK (s : GKState) (l : GKLabel) (s' : GKState) (h : gkstep s l = some s') :
+    runA kstep (kMap s) (gk2l l) = some (kMap s') := by
+  obtain ⟨pc, r⟩ := s
+  cases l <;> simp only [gkstep] at h <;> split at h <;> simp at h <;> subst h <;>
+    simp_all [runA, gk2l, kstep, kMap]
+
+end Cr
+
+/-! ## `Defer/ConcWake.lean` (defer thread futex): `D` = waiter (`wait_defer`), owners = wakers (`wake_up_defer`) -/
+
+namespace Df
+open DeferWake
+
+/-- `D`'s labels, decorated: `dDec v` = `uatomic_dec` returned… nothing (no value), `dScanEnd f` = `rcu_defer_num_callbacks()`
+was non-zero (`f`), `dLoad v` = loaded the futex, saw `v` -/
+inductive WLabel
+  | dDec | dScanStart | dScanQ (i : Nat) | dScanEnd (f : Bool) | dStore0 | dLoad (v : Int)
+  | dWaitSleep | dWaitEagain | dWaitIntr | woken
+  deriving DecidableEq, Repr
+
+def WLabel.toL2 : WLabel → Label
+  | .dDec => .dDec | .dScanStart => .dScanStart | .dScanQ i => .dScanQ i | .dScanEnd _ => .dScanEnd | .dStore0 => .dStore0
+  | .dLoad _ => .dLoad | .dWaitSleep => .dWaitSleep | .dWaitEagain => .dWaitEagain | .dWaitIntr => .dWaitIntr
+  | .woken => .dSpurious
+
+/-- `D`'s local state: its pc and the scan result `found` (only `D` writes it) -/
+structure WState where
+  dpc : DPc
+  found : Bool
+  deriving DecidableEq, Repr
+
+def projW (s : State) : WState := { dpc := s.dpc, found := s.found }
+
+def lstep (c : Cfg) (ws : WState) : WLabel → Option WState
+  | .dDec =>
+    if (c.decFirst = true ∧ ws.dpc = .d0) ∨ (c.decFirst = false ∧ ws.dpc = .dpost) then
+      some { dpc := if c.decFirst then .dscan else (if ws.found then .dfound else .dwloop),
+             found := if c.decFirst then false else ws.found }
+    else none
+  | .dScanStart => if c.decFirst = false ∧ ws.dpc = .d0 then some { dpc := .dscan, found := false } else none
+  | .dScanQ _ => none    -- changes `found` by a value of the global state: see `projW_scanQ`
+  | .dScanEnd f =>
+    if ws.dpc = .dscan ∧ f = ws.found then
+      some { ws with dpc := if c.decFirst then (if ws.found then .dfound else .dwloop) else .dpost }
+    else none
+  | .dStore0 => if ws.dpc = .dfound then some { ws with dpc := .d0 } else none
+  | .dLoad v => if ws.dpc = .dwloop then some { ws with dpc := if v = -1 then .dwait else .d0 } else none
+  | .dWaitSleep => if ws.dpc = .dwait then some { ws with dpc := .dsleep } else none
+  | .dWaitEagain => if ws.dpc = .dwait then some { ws with dpc := .d0 } else none
+  | .dWaitIntr => if ws.dpc = .dwait then some { ws with dpc := .dwloop } else none
+  | .woken => if ws.dpc = .dsleep then some { ws with dpc := .dwloop } else none
+
+def ObsW (s : State) : WLabel → Prop
+  | .dLoad v => v = s.futex
+  | .dScanEnd f => f = s.found
+  | _ => True
+
+def GuardW (c : Cfg) (s : State) : WLabel → Prop
+  | .dDec => s.dfutB = false
+  | .dScanEnd f => f = s.found ∧ (s.found = true ∨ ∀ i, i < c.n → s.scanned i = true)
+  | .dLoad v => v = s.futex
+  | .dWaitSleep => s.futex = -1
+  | .dWaitEagain => s.futex ≠ -1
+  | _ => True
+
+def ownedW : Label → Bool
+  | .dDec | .dScanStart | .dScanQ _ | .dScanEnd | .dStore0 | .dLoad | .dWaitSleep | .dWaitEagain | .dWaitIntr
+  | .dSpurious => true
+  | _ => false
+
+def isWake : Label → Bool
+  | .k3 _ => true
+  | _ => false
+
+def wakeEffect (ws : WState) : WState := { ws with dpc := if ws.dpc = .dsleep then .dwloop else ws.dpc }
+
+/-- every label of `D` except the queue scan `dScanQ` (which reads the queues of the global state) -/
+theorem projW_step (c : Cfg) (s s' : State) (l : WLabel) (hq : ∀ i, l ≠ .dScanQ i)
+    (st : step c s l.toL2 = some s') (ho : ObsW s l) : lstep c (projW s) l = some (projW s') := by
+  cases l <;> simp only [WLabel.toL2, step] at st <;> (repeat' split at st) <;>
+    first
+    | (simp at st; done)
+    | (simp only [Option.some.injEq] at st; subst st; simp_all [ObsW, lstep, projW] <;> grind)
+
+/-- the scan of queue `i`: pc unchanged, `found` becomes true iff queue `i` is non-empty in memory -/
+theorem projW_scanQ (c : Cfg) (s s' : State) (i : Nat) (st : step c s (.dScanQ i) = some s') :
+    projW s' = { projW s with found := if s.mh i ≠ s.tl i then true else s.found } := by
+  simp only [step] at st
+  split at st
+  · simp only [Option.some.injEq] at st; subst st; simp [projW]
+  · simp at st
+
+theorem projW_enabled (c : Cfg) (s : State) (l : WLabel) (ws' : WState)
+    (hl : lstep c (projW s) l = some ws') (hg : GuardW c s l) :
+    ∃ s', step c s l.toL2 = some s' ∧ projW s' = ws' ∧ ObsW s l := by
+  cases l <;> simp only [lstep] at hl <;> (repeat' split at hl) <;>
+    first
+    | (simp at hl; done)
+    | (simp only [Option.some.injEq] at hl; subst hl
+       simp_all [ObsW, GuardW, WLabel.toL2, step, projW] <;> grind)
+
+/-- owners' `k0 kf k1 k2Wake k2Skip`, `flushD`, `flushHd j`, `flushFut j`, `drain j v` leave `D`'s local state unchanged -/
+theorem projW_frame (c : Cfg) (s s' : State) (l : Label)
+    (st : step c s l = some s') (ho : ownedW l = false) (hw : isWake l = false) : projW s' = projW s := by
+  cases l <;> simp only [step] at st <;> (repeat' split at st) <;>
+    first
+    | (simp at st; done)
+    | (simp only [Option.some.injEq] at st; subst st; simp_all [ownedW, isWake, projW])
+
+theorem projW_env_wake (c : Cfg) (s s' : State) (j : Nat) (st : step c s (.k3 j) = some s') :
+    projW s' = wakeEffect (projW s) ∧ (s.dpc = .dsleep → lstep c (projW s) .woken = some (projW s')) := by
+  simp only [step] at st
+  split at st
+  · simp only [Option.some.injEq] at st; subst st
+    refine ⟨?_, ?_⟩
+    · by_cases hs : s.dpc = .dsleep <;> simp [wakeEffect, projW, hs]
+    · intro hs; simp [lstep, projW, hs]
+  · simp at st
+
+/-- the wait loop of `wait_defer` starts at L2 pc `dwloop` and ends at `d0` (the caller loops) -/
+def pcMap (f : Bool) : GWPc → WState
+  | .chk => ⟨.dwloop, f⟩ | .call => ⟨.dwait, f⟩ | .asleep => ⟨.dsleep, f⟩ | .done => ⟨.d0, f⟩
+
+def gw2l : GWLabel → List WLabel
+  | .ldArmed => [.dLoad (-1)] | .ldOther v => [.dLoad v] | .sleep => [.dWaitSleep] | .woken => [.woken]
+  | .eagain => [.dWaitEagain] | .intr => [.dWaitIntr]
+
+theorem sim (c : Cfg) (f : Bool) (g : GWPc) (l : GWLabel) (g' : GWPc) (h : gwstep (-1) g l = some g') :
+    runA (lstep c) (pcMap f g) (gw2l l) = some (pcMap f g') := by
+  cases g <;> cases l <;> simp only [gwstep] at h <;> (try split at h) <;> simp at h <;> subst h <;>
+    simp_all [runA, gw2l, lstep, pcMap]
+
+/-! ### owner `i` as waker (`_defer_rcu` … `wake_up_defer`) -/
+
+structure KState where
+  kpc : KPc
+  r   : Int
+  deriving DecidableEq, Repr
+
+def projK (s : State) (i : Nat) : KState := { kpc := s.kpc i, r := s.r i }
+
+inductive KLabel
+  | k0 | kf | k1 (v : Int) | k2Wake | k2Skip | k3
+  deriving DecidableEq, Repr
+
+def KLabel.toL2 (i : Nat) : KLabel → Label
+  | .k0 => .k0 i | .kf => .kf i | .k1 _ => .k1 i | .k2Wake => .k2Wake i | .k2Skip => .k2Skip i | .k3 => .k3 i
+
+def ownerK : Label → Option Nat
+  | .k0 i | .kf i | .k1 i | .k2Wake i | .k2Skip i | .k3 i => some i
+  | _ => none
+
+def kstep (ks : KState) : KLabel → Option KState
+  | .k0 => if ks.kpc = .k0 then some { ks with kpc := .kf } else none
+  | .kf => if ks.kpc = .kf then some { ks with kpc := .k1 } else none
+  | .k1 v => if ks.kpc = .k1 then some { kpc := .k2, r := v } else none
+  | .k2Wake => if ks.kpc = .k2 ∧ ks.r = -1 then some { ks with kpc := .k3 } else none
+  | .k2Skip => if ks.kpc = .k2 ∧ ks.r ≠ -1 then some { ks with kpc := .k0 } else none
+  | .k3 => if ks.kpc = .k3 then some { ks with kpc := .k0 } else none
+
+def ObsK (s : State) : KLabel → Prop
+  | .k1 v => v = s.futex
+  | _ => True
+
+def GuardK (c : Cfg) (s : State) (i : Nat) : KLabel → Prop
+  | .k0 => i < c.n
+  | .kf => c.mbBeforeWake = true → s.bhd i = false
+  | .k1 v => v = s.futex
+  | .k3 => s.bhd i = false ∧ s.bfut i = false
+  | _ => True
+
+theorem projK_step (c : Cfg) (s s' : State) (i : Nat) (l : KLabel)
+    (st : step c s (l.toL2 i) = some s') (ho : ObsK s l) : kstep (projK s i) l = some (projK s' i) := by
+  cases l <;> simp only [KLabel.toL2, step] at st <;> (repeat' split at st) <;>
+    first
+    | (simp at st; done)
+    | (simp only [Option.some.injEq] at st; subst st; simp_all [ObsK, kstep, projK, upd])
+
+theorem projK_enabled (c : Cfg) (s : State) (i : Nat) (l : KLabel) (ks' : KState)
+    (hl : kstep (projK s i) l = some ks') (hg : GuardK c s i l) :
+    ∃ s', step c s (l.toL2 i) = some s' ∧ projK s' i = ks' ∧ ObsK s l := by
+  cases l <;> simp only [kstep] at hl <;> (repeat' split at hl) <;>
+    first
+    | (simp at hl; done)
+    | (simp only [Option.some.injEq] at hl; subst hl; simp_all [ObsK, GuardK, KLabel.toL2, step, projK, upd])
+
+theorem projK_frame (c : Cfg) (s s' : State) (i : Nat) (l : Label)
+    (st : step c s l = some s') (ho : ownerK l ≠ some i) : projK s' i = projK s i := by
+  cases l <;> simp only [step] at st <;> (repeat' split at st) <;>
+    first
+    | (simp at st; done)
+    | (simp only [Option.some.injEq] at st; subst st; simp_all [ownerK, projK, upd] <;> grind)
+
+/-- generic waker = `wake_up_defer()`: L2 pcs `k1 → k2 → k3 → k0` (`k0`, `kf` – the store of `head` and the
+`cmm_smp_mb()` – are in the caller `_defer_rcu`) -/
+def kMap (s : GKState) : KState :=
+  { kpc := match s.kpc with | .k1 => .k1 | .k2 => .k2 | .k3 => .k3 | .k4 => .k0, r := s.r }
+
+def gk2l : GKLabel → List KLabel
+  | .k1 v => [.k1 v] | .k2Wake => [.k2Wake] | .k2Skip => [.k2Skip] | .k3 => [.k3]
+
+theorem simK (s : GKState) (l : GKLabel) (s' : GKState) (h : gkstep s l = some s') :
+    runA kstep (kMap s) (gk2l l) = some (kMap s') := by
+  obtain ⟨pc, r⟩ := s
+  cases l <;> simp only [gkstep] at h <;> split at h <;> simp at h <;> subst h <;>
+    simp_all [runA, gk2l, kstep, kMap]
+
+end Df
 
 end UrcuVerif.Src.Futex
